@@ -73,7 +73,7 @@ theorem sched_ops_keep_available_nonneg (n : Node) (hw : NodeWF n) (h0 : ∀ k, 
     `available` negative (each an externally forced change the property allows). -/
 example : PreAll (Node.new [("cpu", 10)])
     [.tryAdd ⟨"a1", [("cpu", 4)], false⟩, .forceAdd ⟨"f1", [("cpu", 3)], true⟩, .remove "a1", .setCapacity [("cpu", 2)]] := by
-  decide
+  simp only [PreAll, Pre]; decide
 example : (run (Node.new [("cpu", 10)]) [.forceAdd ⟨"a1", [("cpu", 14)], false⟩]).available = [("cpu", -4)] := by decide
 example : (run (Node.new [("cpu", 10)]) [.tryAdd ⟨"a1", [("cpu", 6)], false⟩, .setCapacity [("cpu", 2)]]).available = [("cpu", -4)] := by decide
 example : (run (Node.new [("cpu", 10)]) [.tryAdd ⟨"a1", [("cpu", 6)], false⟩, .setOccupied [("cpu", 7)]]).available = [("cpu", -3)] := by decide
